@@ -44,6 +44,8 @@ package rwriter
 //@   requires w != nil && r != nil && r.URL != nil
 //@   ghost optErr := false
 //@   at call getOpts#1: after ghost optErr := result1 != nil
+// content negotiation looks at every Accept header value (a malformed one anywhere is a 400):
+//@   loop 1: exhaustive
 //@   at call apierror.New#1: assert arg1 == 400
 //@   at call apierror.New#2: assert arg1 == 400
 //@   at call apierror.New#3: assert arg1 == 400
